@@ -517,6 +517,9 @@ class Executor:
             return Opaque("const " + text_s.split(" {{")[0].split("::")[-1])
         # unit variant of an enum (`const Option::<T>::None`, `const MergeOp::TakeLeft`)
         segs = _strip_generics(text_s).split("::")
+        if len(segs) >= 3 and segs[-3].endswith("_capnp") and self.src.enum_variants("capnp:" + segs[-2], segs[-1]) is not None:
+            # enums generated from a .capnp schema share names with hand-written enums (EncodingType): keep them apart
+            return Agg("enum", [], name="capnp:" + segs[-2], variant=segs[-1])
         if len(segs) >= 2 and (segs[-2] in self.BUILTIN_ENUMS or self.src.enum_variants(segs[-2], segs[-1]) is not None):
             return Agg("enum", [], name=segs[-2], variant=segs[-1])
         # unit-like struct constant (e.g. `const CmpLessThan`)
@@ -750,6 +753,8 @@ class Executor:
             segs = bare.split("::")
             if len(segs) >= 2:
                 en, var = segs[-2], segs[-1]
+                if len(segs) >= 3 and segs[-3].endswith("_capnp") and self.src.enum_variants("capnp:" + en, var) is not None:
+                    return Agg("enum", fields, name="capnp:" + en, variant=var)
                 if en in self.BUILTIN_ENUMS or self.src.enum_variants(en, var) is not None:
                     return Agg("enum", fields, name=en, variant=var)
             return Agg("struct", fields, name=segs[-1])
@@ -787,6 +792,9 @@ class Executor:
     def discriminant_of(self, v):
         if isinstance(v, Havoc):
             return v.field("discriminant", "isize")
+        if isinstance(v, Agg) and v.kind == "enum" and (v.name or "").startswith("capnpwhich:"):
+            # union discriminator enum built by the capnp accessor model: the variant position is carried in the name
+            return I("isize", int(v.name.split(":")[1]))
         if isinstance(v, Agg) and v.kind == "enum":
             vs = self.BUILTIN_ENUMS.get(v.name) or self.src.enum_variants(v.name, v.variant)
             if vs is None:
